@@ -37,7 +37,7 @@ PROPS = {
     ),
     'C07': dict(
         title='Split, join, cast and rounding',
-        verus=['val_mut', 'exec_glue'], kani=['c07_'],
+        verus=['val_mut', 'exec_glue', 'val_arrays'], kani=['c07_'],
         technique=V + ' (cut/cast/turn kind and error tables, std preconditions such as from_str_radix radix range as '
                       'proof obligations; string contents uninterpreted) + ' + K + ' (rounding and integrality on all f64)',
     ),
@@ -70,7 +70,7 @@ PROPS = {
     ),
     'C19': dict(
         title='Lint reports are complete, ordered by line, and linting never fails',
-        verus=['linter', 'visit_runner'], kani=['c19_'],
+        verus=['linter', 'visit_runner', 'boring'], kani=['c19_'],
         technique=V + ' (ListBuilder build/combine/default incl. unreachable_unchecked sites, postprocess stable sort, '
                       'Linter::run, repeated-identifier rule match_or_update / visit_function_call) + Kani recording '
                       'visitors for the ExprVisitorRunner traversal the pass runs on',
